@@ -103,7 +103,7 @@ def may_raise(node: ast.AST) -> bool:
     """Whether evaluating ``node`` (not descending into nested function bodies) contains an operation
     the analysis treats as possibly raising: a call, a subscript load, ``raise`` or ``assert``."""
     for sub in walk_no_nested(node):
-        if isinstance(sub, (ast.Call, ast.Raise, ast.Assert)):
+        if isinstance(sub, (ast.Call, ast.Raise, ast.Assert, ast.Import, ast.ImportFrom)):
             return True
         if isinstance(sub, ast.Subscript) and isinstance(sub.ctx, ast.Load):
             return True
